@@ -6,6 +6,7 @@ import Fdo.Drv.Kex
 import Fdo.Drv.Voucher
 import Fdo.Drv.TO0
 import Fdo.Drv.TO1
+import Fdo.Drv.TO2Dev
 import Fdo.Drv.Chunk
 import Fdo.Drv.Rv
 /-
@@ -24,6 +25,7 @@ def handlers : List (String × (String → List String → Option String)) := [
   ("voucher.", Drv.Voucher.handle),
   ("to0.", Drv.TO0.handle),
   ("to1.", Drv.TO1.handle),
+  ("to2dev.", Drv.TO2Dev.handle),
   ("chunk.", Drv.Chunk.handle),
   ("rv.", Drv.Rv.handle),
 ]
